@@ -44,7 +44,8 @@ def attr_pair(mode, base):
 
 VALUE_MODES = ["same", "disjoint", "overlap", "src_empty", "dest_empty", "text_convertible", "unconvertible",
                "float_to_int", "int_to_string", "multiline", "dates", "unconvertible_dest_empty", "tuples",
-               "float_inf_to_int", "float_nan_to_int", "huge_int_to_float"]
+               "float_inf_to_int", "float_nan_to_int", "huge_int_to_float", "dest_empty_text_to_int",
+               "dest_empty_int_to_float", "dest_empty_text_to_date"]
 
 
 def values_for(mode):
@@ -70,6 +71,13 @@ def values_for(mode):
     if mode == "float_to_int":
         return "int", [1], "float", [2.0, 3.5], True
     # numbers that no number of the other kind can hold
+    # the destination is typed but still empty: what it gains is converted like any other gain
+    if mode == "dest_empty_text_to_int":
+        return "int", [], "string", ["2", "7"], True
+    if mode == "dest_empty_int_to_float":
+        return "float", [], "int", [1, 2], True
+    if mode == "dest_empty_text_to_date":
+        return "date", [], "string", ["2020-01-01"], True
     if mode == "float_inf_to_int":
         return "int", [1], "float", [2.0, float("inf")], False
     if mode == "float_nan_to_int":
@@ -91,6 +99,8 @@ def convert(v, dest_dtype):
         return v if isinstance(v, list) else [x.strip() for x in v.strip()[1:-1].split(";")]
     if dest_dtype == "int":
         return int(float(v))
+    if dest_dtype == "float":
+        return float(v)
     if dest_dtype == "string":
         return str(v)
     if dest_dtype == "date":
@@ -298,6 +308,14 @@ def check_merged(dest, src, dest_before, strict, fails, path="/root"):
         if snap.tv(mine.dtype) != old["dtype"] and old["dtype"] != ["none"]:
             fails.append(failure("merge.overwrote", "%s:%s dtype changed" % (path, sp.name), attr="dtype",
                                  level="property"))
+        # gained values are converted to the destination's own dtype
+        from ..value_engine import conforms
+        if mine.dtype is not None:
+            odd = [v for v in mine.values if not conforms(v, mine.dtype)]
+            if odd:
+                fails.append(failure("merge.value_not_converted", "%s:%s holds %r (%s) although its dtype is %s"
+                                     % (path, sp.name, odd[0], type(odd[0]).__name__, mine.dtype),
+                                     level="property", dtype=str(mine.dtype)))
         for a in ("definition", "reference", "unit", "uncertainty", "value_origin"):
             o = old[a]
             sval = getattr(sp, a)
@@ -411,13 +429,30 @@ def second_merge(dest, strict, fails):
                              "raised %s: %s" % (type(exc).__name__, str(exc)[:100]), strict=strict,
                              second=True))
         return
+    # the same source once more, after it has grown: the new content is taken over as well
+    grown = odml.Property(name="second-merge-late", values=["late"], parent=extra)
+    extra.properties["second-merge-p"].append(8)
+    odml.Property(name="q2", values=[1], parent=sub)
+    try:
+        dest.merge(extra, strict=strict)
+        have_p = "second-merge-late" in dest.properties and 8 in dest.properties["second-merge-p"].values
+        have_s = "q2" in dest.sections["second-merge-s"].properties
+        if not (have_p and have_s):
+            fails.append(failure("merge.missing_child", "merging the same source again after it had grown did "
+                                 "not bring the new content (Property / value: %s, below the sub-Section: %s)"
+                                 % (have_p, have_s), second=True, again=True))
+    except Exception as exc:
+        fails.append(failure("merge.refused_mergeable", "merging the same, grown source again raised %s: %s"
+                             % (type(exc).__name__, str(exc)[:100]), strict=strict, second=True, again=True))
+        return
     end = snap.content(dest)
+
     def nm(c):
         return c["name"][1] if len(c["name"]) > 1 else None
     got = {nm(c) for c in end.get("props", [])} | {nm(c) for c in end.get("sections", [])}
     if not {"second-merge-p", "second-merge-s"} <= got:
         fails.append(failure("merge.missing_child", "the second merge did not bring its children", second=True))
-    end["props"] = [c for c in end.get("props", []) if nm(c) != "second-merge-p"]
+    end["props"] = [c for c in end.get("props", []) if nm(c) not in ("second-merge-p", "second-merge-late")]
     end["sections"] = [c for c in end.get("sections", []) if nm(c) != "second-merge-s"]
     end = snap.normalize(end, merged=False)
     if end != mid:
